@@ -39,6 +39,14 @@ class Rec:
         return list(x) + [self.sid]
 
 
+class RecT(Rec):
+    """recording stage whose payload is a TUPLE (a pipeline value may be any object, e.g. a (signal, csi) pair): value -> value + (id,)."""
+
+    def __call__(self, x, *args, **kwargs):
+        self.log.append((self.sid, tuple(x) if isinstance(x, tuple) else ("NOT_A_TUPLE", x), tuple(args), dict(kwargs)))
+        return (tuple(x) if isinstance(x, tuple) else (x,)) + (self.sid,)
+
+
 def run_sequential(ctx, kind, ids, args, kwargs, cell, case):
     """build a pipeline with stage ids `ids` (after any edits by the caller) and run it once."""
     raise NotImplementedError
@@ -205,6 +213,24 @@ def unit_fixed_pipelines(ctx):
                       {"kind": "fixed_seq", "n": n, "args": list(a), "kwargs": kw}, {"out": out}, {"out": exp}, "sequential model does not apply stages in order with forwarded arguments", "c17:check_fixed")
             if n >= 2:
                 ctx.nontrivial("fixedseq", n, str(a), str(kw))
+    # tuple-valued payloads: every stage receives the previous stage's output AS ONE OBJECT, followed by the forwarded extra arguments
+    for n in range(0, 5):
+        for payload in (("x",), ("x", "y"), ()):
+            for a, kw in (((), {}), ((1, 2), {"snr": 3})):
+                log = []
+                ids = [f"s{j}" for j in range(n)]
+                m = SequentialModel([RecT(log, i) for i in ids])
+                case = {"kind": "fixed_seq_tuple", "n": n, "payload": list(payload), "args": list(a), "kwargs": kw}
+                ok, out = ctx.call(lambda: m(payload, *a, **kw), "C17.raises", {"model": "sequential", "mode": "fixed", "payload": "tuple"}, case, checker="c17:check_fixed")
+                if not ok:
+                    continue
+                exp_log = [(i, tuple(payload) + tuple(ids[:j]), a, kw) for j, i in enumerate(ids)]
+                ctx.ev()
+                ctx.check(out == tuple(payload) + tuple(ids) and log == exp_log, "C17.s_order", {"model": "sequential", "mode": "fixed", "payload": "tuple"}, case,
+                          {"out": list(out) if isinstance(out, tuple) else repr(out), "calls": [l[0] for l in log]}, {"out": list(payload) + ids},
+                          "with a tuple-valued payload a stage did not receive the previous output as one object plus the forwarded arguments", "c17:check_fixed")
+                if n >= 2:
+                    ctx.nontrivial("fixedseq_tuple", n, str(payload), str(a))
     for name, cls, roles in (("deepjscc", DeepJSCCModel, ["encoder", "constraint", "channel", "decoder"]),
                              ("channel_code", ChannelCodeModel, ["encoder", "modulator", "constraint", "channel", "demodulator", "decoder"])):
         for a, kw in (((), {}), ((), {"snr": 7}), ((5,), {"noise_var": 2})):
